@@ -123,6 +123,44 @@ func fnMove() *run.Fn {
 	}}
 }
 
+// PointSetterSequence: NewPoint, then SetLon / SetLat / SetAlt in the given order on the SAME object (kind 0 / 1 / 2), the error flag of every
+// call, the triple read back with Lon() / Lat() / Alt(), and the IDs of that object.
+func fnSetters() *run.Fn {
+	return &run.Fn{Name: "PointSetterSequence", Invoke: func(a []w.Val) w.Val {
+		t := w.AsList(a[0])
+		p, err := object.NewPoint(w.AsFlt(t[0]), w.AsFlt(t[1]), w.AsFlt(t[2]))
+		if err != nil {
+			return w.Err{V: PointVal(p)}
+		}
+		ops := w.AsList(a[1])
+		flags := make(w.List, len(ops))
+		for i, o := range ops {
+			kv := w.AsList(o)
+			x := w.AsFlt(kv[1])
+			var e error
+			switch w.AsInt(kv[0]) {
+			case 0:
+				e = p.SetLon(x)
+			case 1:
+				e = p.SetLat(x)
+			default:
+				p.SetAlt(x)
+			}
+			flags[i] = w.B(e != nil)
+		}
+		stored := w.L(w.F(p.Lon()), w.F(p.Lat()), w.F(p.Alt()))
+		ids, err := shape.GetExtendedSpatialIdsOnPoints([]*object.Point{p}, w.AsInt(a[2]), w.AsInt(a[3]))
+		return w.L(flags, stored, w.WithErr(w.Strs(ids), err))
+	}}
+}
+
+// VerticalTileIdOnAltitude: the unexported getVerticalTileIdOnAltitude through its verif hook ("vZoom/f").
+func fnVTile() *run.Fn {
+	return &run.Fn{Name: "VerticalTileIdOnAltitude", Invoke: func(a []w.Val) w.Val {
+		return w.S(shape.VerifGetVerticalTileIdOnAltitude(w.AsFlt(a[0]), w.AsInt(a[1])))
+	}}
+}
+
 // ---- generators aware of the case's zooms ----
 
 // lonFor: a longitude aimed at the column boundaries of zoom h.
@@ -241,7 +279,7 @@ func init() {
 	Scale["C01"] = 10000
 	Registry["C01"] = func(r *run.Runner, g *Gen, n int) {
 		MathOracles(r)
-		r.Register(fnPoints(), fnPointsSid(), fnNewPoint(), fnLatRow(), fnMove())
+		r.Register(fnPoints(), fnPointsSid(), fnNewPoint(), fnLatRow(), fnMove(), fnSetters(), fnVTile())
 		ext := func(pts w.Val, h, v int64, triv bool, tags ...string) {
 			r.Run(run.Case{Prop: "C01", Fn: "GetExtendedSpatialIdsOnPoints", Tags: append(zoomTags(h, v), tags...), Trivial: triv,
 				Args: []w.Val{pts, w.I(h), w.I(v)}})
@@ -370,7 +408,62 @@ func init() {
 				r.Run(run.Case{Prop: "C01", Fn: "PointMoveSequence", Tags: append(append(zoomTags(h, v), tags...), "move-sequence", Tag("nmove=%d", nmove)),
 					Args: []w.Val{l1, l2, w.I(h), w.I(v), w.B(sidForm)}})
 				i++
-			case kind < 280:
+			case kind < 200: // setter sequences on one object, in random order, some refused; then the object is converted
+				if h > 35 || v > 35 {
+					continue
+				}
+				var lon0, lat0, alt0 float64
+				for {
+					lon0, _ = lonFor(g, h)
+					lat0, _ = latFor(g)
+					alt0, _ = altFor(g, v)
+					if _, _, ok := StoredPoint(lon0, lat0, alt0); ok {
+						break
+					}
+				}
+				nops := 1 + g.Intn(6)
+				ops := make(w.List, nops)
+				for j := range ops {
+					k := g.Intn(3)
+					var x float64
+					switch k {
+					case 0:
+						x, _ = lonFor(g, h)
+						if g.Chance(0.15) {
+							x = g.PickF(181, -181, 180.00000000000003, -180.00000000000003, 360, -540)
+						}
+					case 1:
+						x, _ = latFor(g)
+						if g.Chance(0.2) {
+							x = g.PickF(12.9086804579, -62.502467986899994, 85.05112877989, -85.05112877989, 85.0511287799, -85.0511287799, 90, -90, 85.06)
+						}
+					default:
+						x, _ = altFor(g, v)
+					}
+					ops[j] = w.L(w.I(int64(k)), w.F(x))
+				}
+				r.Run(run.Case{Prop: "C01", Fn: "PointSetterSequence", Tags: append(zoomTags(h, v), "setter-sequence", Tag("nops=%d", nops)),
+					Args: []w.Val{w.L(w.F(lon0), w.F(lat0), w.F(alt0)), ops, w.I(h), w.I(v)}})
+				i++
+			case kind < 260: // the vertical hook alone: every zoom, altitudes of both signs, sub-metre, boundaries, +-2^25, and the denormal class region
+				if v < 0 || v > 35 {
+					continue
+				}
+				alt, tag := altFor(g, v)
+				switch g.Intn(10) {
+				case 0:
+					alt, tag = g.AltDenormal(), "denormal-alt"
+				case 1:
+					alt, tag = math.Copysign(Ulp(math.Ldexp(1, int(-997-v)), g.Intn(5)-2), g.R.Float64()-0.5), "denormal-alt"
+				case 2:
+					alt, tag = (g.R.Float64()-0.5)*2, "alt-sub-metre"
+				case 3:
+					alt, tag = Ulp(g.PickF(33554432, -33554432), g.Intn(5)-2), "alt-edge"
+				}
+				r.Run(run.Case{Prop: "C01", Fn: "VerticalTileIdOnAltitude", Tags: []string{Tag("vzoom=%d", v), tag, "vertical-hook"},
+					Args: []w.Val{w.F(alt), w.I(v)}})
+				i++
+			case kind < 340:
 				pts, tags := pointsFor(g, h, h)
 				sid(pts, h, len(pts) == 0, tags...)
 				i++
